@@ -170,10 +170,12 @@ Definition spv_ok (f : frame) : bool :=
   (f_len f <=? max_buffered) && (f_typ f =? T_SetProtocolVersionResponse) &&
   match f_info f with IStatus code => code =? Status_Success | _ => false end.
 
-(* Shutdown 469-487: the reply must be a CloseConnectionResponse or ErrorMessage with status Success *)
+(* Shutdown 474-506: only a CloseConnectionResponse with status Success makes Shutdown call Close. An ErrorMessage —
+   whatever its status: since 771981f one that claims Success is an error of its own — any other type and any
+   status other than Success make Shutdown return an error and leave the connection open. *)
 Definition shutdown_ok (f : frame) : bool :=
   (f_len f <=? max_buffered) &&
-  ((f_typ f =? T_CloseConnectionResponse) || (f_typ f =? T_ErrorMessage)) &&
+  (f_typ f =? T_CloseConnectionResponse) &&
   match f_info f with IStatus code => code =? Status_Success | _ => false end.
 
 (* the Messages negotiate builds: NewHdrOnlyMsg(MsgGetSupportedVersion) 1096,
@@ -217,13 +219,17 @@ Definition step_wdefault (s : state) : state :=
   | _, _ => s
   end.
 
-Definition step_waccept (c : N) (s : state) : state :=
+(* The version a frame carries is decided when the write loop has taken the message — right after the select, before
+   it blocks in Write (reader.go 829-835: msg.version = ... c.curVersion()) — not when the peer finally reads it: an
+   acknowledgement (or an internal request) taken while negotiation was still running keeps the version of that
+   moment even if the negotiated version has changed by the time the bytes go out. *)
+Definition step_waccept (cfg : config) (c : N) (s : state) : state :=
   match writer s, lookup c (callers s) with
   | WInner, Some (Queued r) =>
       let fresh := q_id r =? 0 in
       let id := if fresh then next_id s else q_id r in                          (* 775-778 *)
       let s1 := if fresh then set_next_id (u32 (next_id s + 1)) s else s in
-      let o := mkOFrame (mkFrame (q_ver r) (q_typ r) id (q_len r) (q_tag r) IOpaque) (Some c) in
+      let o := stamp_o cfg (version s) (mkOFrame (mkFrame (q_ver r) (q_typ r) id (q_len r) (q_tag r) IOpaque) (Some c)) in
       let s2 := set_assigned (assigned s1 ++ [(c, id)]) (set_writer (WHolding o) s1) in
       if q_wait r then                                                         (* 781-809 *)
         set_caller c (HasToken r id) (set_awaiting (insert id c (awaiting s2)) s2)
@@ -231,10 +237,10 @@ Definition step_waccept (c : N) (s : state) : state :=
   | _, _ => s
   end.
 
-Definition step_wtakeack (s : state) : state :=
+Definition step_wtakeack (cfg : config) (s : state) : state :=
   match writer s, ackq s with
   | WTop, i :: q | WInner, i :: q =>
-      set_ackq q (set_writer (WHolding (mkOFrame (mkFrame 0 T_KeepAliveAck i 0 0 IOpaque) None)) s)
+      set_ackq q (set_writer (WHolding (stamp_o cfg (version s) (mkOFrame (mkFrame 0 T_KeepAliveAck i 0 0 IOpaque) None))) s)
   | _, _ => s
   end.
 
@@ -248,7 +254,7 @@ Definition after_frame (o : oframe) : wstate :=
 Definition step_wwritehdr (cfg : config) (s : state) : state :=
   match writer s with
   | WHolding o =>
-      let o' := stamp_o cfg (version s) o in
+      let o' := o in          (* stamped when it was taken *)
       let s1 := set_wire (wire s ++ [CHdr o']) s in
       if f_len (o_frame o') =? 0 then set_writer (after_frame o') (set_out (out s1 ++ [o']) s1)
       else set_writer (WPayload o') s1
@@ -266,7 +272,7 @@ Definition step_writefail (cfg : config) (k : N) (s : state) : state :=
   | WHolding o =>
       if k <? header_sz then
         set_writer WDead (set_errs (errs s ++ [EWrite])
-          (set_wire (wire s ++ [CPartial (stamp_o cfg (version s) o) false k]) s))
+          (set_wire (wire s ++ [CPartial o false k]) s))
       else s
   | WPayload o =>
       if k <? f_len (o_frame o) then
@@ -445,8 +451,8 @@ Definition step (cfg : config) (s : state) (e : event) : state :=
   | SeeClosed c => step_see_closed c s
   | Cancel c => step_cancel c s
   | WDefault => step_wdefault s
-  | WAccept c => step_waccept c s
-  | WTakeAck => step_wtakeack s
+  | WAccept c => step_waccept cfg c s
+  | WTakeAck => step_wtakeack cfg s
   | WWriteHdr => step_wwritehdr cfg s
   | WWritePay => step_wwritepay s
   | WriteFail k => step_writefail cfg k s
